@@ -28,7 +28,7 @@ ASSUME = ["a crash is modelled as process death (os._exit / SIGKILL): data hande
           "system is not modelled", "sidecars that are valid JSON but not an object are outside 'not valid JSON' and not generated",
           "old / new reference states come from uncut runs of the real code in the same pre-state"]
 BUDGET = {"quick": {"scenarios": 14, "byte_step": 2, "strace_scenarios": 8, "corrupt_step": 2},
-          "thorough": {"scenarios": 40, "byte_step": 1, "strace_scenarios": 40, "corrupt_step": 1}}
+          "thorough": {"scenarios": 96, "byte_step": 1, "strace_scenarios": 96, "corrupt_step": 1}}
 NSHARDS = 8
 
 
